@@ -71,20 +71,24 @@ Definition datetime_to (v : cv) (abbr : list N) : option (list N) :=
       else Some (str_date y m d ++ 32 :: str_time h mi s ++ 32 :: abbr)
   | _ => None
   end.
-(* layout without zone; else layout with zone abbreviation; else (a zone text Go cannot parse, e.g. +0545) the civil prefix *)
-Definition datetime_of (s : list N) : option cv :=
+(* layout without zone; else layout with a zone abbreviation; else (an abbreviation Go cannot parse, e.g. +0545) the civil
+   prefix.  [inforce] is the abbreviation Go prints for that civil time in the process zone (supplied by the harness; [] if
+   unknown): with it - or without any - the civil fields are those of the text.  Another abbreviation may name a different
+   offset of the same location (Go then shifts the reading, e.g. "-03" under America/Boa_Vista): not modelled, DUnknown. *)
+Inductive dtres := DOk (v : cv) | DErr | DUnknown.
+Definition datetime_of (inforce : list N) (s : list N) : dtres :=
   match s with
-  | [] => Some (VL [VZ 1; VZ 1; VZ 1; VZ 0; VZ 0; VZ 0])
+  | [] => DOk (VL [VZ 1; VZ 1; VZ 1; VZ 0; VZ 0; VZ 0])
   | _ =>
       match parse_date10 (firstn 10 s), nth_error s 10, parse_time8 (firstn 8 (skipn 11 s)) with
       | Some (y, m, d), Some 32, Some (h, mi, se) =>
           let rest := skipn 19 s in
           match rest with
-          | [] => Some (VL [VZ y; VZ m; VZ d; VZ h; VZ mi; VZ se])
-          | 32 :: _ :: _ => Some (VL [VZ y; VZ m; VZ d; VZ h; VZ mi; VZ se])
-          | _ => None
+          | [] => DOk (VL [VZ y; VZ m; VZ d; VZ h; VZ mi; VZ se])
+          | 32 :: a :: r => if nlist_eqb (a :: r) inforce then DOk (VL [VZ y; VZ m; VZ d; VZ h; VZ mi; VZ se]) else DUnknown
+          | _ => DErr
           end
-      | _, _, _ => None
+      | _, _, _ => DErr
       end
   end.
 
